@@ -6,6 +6,7 @@ package argmapper
 // sequential execution of the same call can produce.
 
 import (
+	"reflect"
 	"strconv"
 	"sync"
 	"testing"
@@ -96,5 +97,59 @@ func TestVerifRaceOnce(t *testing.T) {
 	}
 	if runs > 1 {
 		t.Errorf("FAILING-INPUT race-once: the run-once converter executed %d times", runs)
+	}
+}
+
+// TestVerifRaceRedefine: calls of a target run while other goroutines plan
+// (Redefine) over the same target and the same shared converter objects. A call
+// must see the real converters, never a planning stand-in.
+func TestVerifRaceRedefine(t *testing.T) {
+	target := MustFunc(NewFunc(func(b rcB) string { return "got:" + b.V }))
+	conv := MustFunc(NewFunc(func(a rcA) rcB { return rcB{strconv.Itoa(a.V)} }))
+	withConv := MustFunc(NewFunc(func(b rcB) string { return "got:" + b.V }, ConverterFunc(conv)))
+	var wg sync.WaitGroup
+	errs := make(chan string, 64)
+	for g := 0; g < 8; g++ {
+		wg.Add(1)
+		go func(g int) {
+			defer wg.Done()
+			for i := 0; i < 40; i++ {
+				f := target
+				if i%2 == 1 {
+					f = withConv
+				}
+				if g%2 == 0 {
+					r := f.Call(Logger(hclog.NewNullLogger()), ConverterFunc(conv), Typed(rcA{42}))
+					if r.Err() != nil {
+						errs <- "call during Redefine: " + r.Err().Error()
+						return
+					}
+					if r.Out(0) != "got:42" {
+						errs <- "call during Redefine returned " + r.Out(0).(string)
+						return
+					}
+				} else {
+					rf, err := f.Redefine(Logger(hclog.NewNullLogger()), ConverterFunc(conv), FilterInput(FilterType(reflect.TypeOf(rcA{}))))
+					if err != nil {
+						errs <- "Redefine: " + err.Error()
+						return
+					}
+					r := rf.Call(Logger(hclog.NewNullLogger()), Typed(rcA{42}))
+					if r.Err() != nil {
+						errs <- "redefined call: " + r.Err().Error()
+						return
+					}
+					if r.Out(0) != "got:42" {
+						errs <- "redefined call returned " + r.Out(0).(string)
+						return
+					}
+				}
+			}
+		}(g)
+	}
+	wg.Wait()
+	close(errs)
+	for e := range errs {
+		t.Errorf("FAILING-INPUT race-redefine: %s", e)
 	}
 }
